@@ -311,6 +311,12 @@ class CallMixin:
             return self.coerce_to(sym.opt_val(v), t, st, node)
         if isinstance(t, TOpt) and not isinstance(v.t, (TNone, TOpt)):
             return sym.opt_some(t, self.coerce_to(v, t.inner, st, node))
+        if isinstance(v.t, TDict) and isinstance(t, TRef) and self.field_decl(t.cls, "opaque_id") is not None:
+            # a modelled dict handed to a parameter declared as an opaque mapping (a pseudo-class with only `opaque_id`): the
+            # callee learns nothing about its content - some existing object of that class
+            r = sym.fresh(t, "boxed")
+            self.assume_wellformed(st, r)
+            return r
         try:
             return sym.coerce(self.reify(v), t)
         except TypeError as err:
@@ -749,6 +755,11 @@ class CallMixin:
             target = f"{modn}:{owner}.__init__"
             fs = self.reg.funs.get(target)
             if fs is not None and not fs.inline:
+                if fs.until:
+                    # a contract over a prefix of __init__: callers see the explicit (assumed) view of the whole constructor
+                    if fs.callers is None:
+                        raise EngineError(f"call to {target}, whose contract covers only a prefix of its body (no callers= view)")
+                    fs = fs.callers
                 rs = self.call_contract(fs, [ref] + args, kwargs, st, node, fnode=init, mod=mod)
             else:
                 rs = self.call_inline(mod, f"{owner}.__init__", init, [ref] + args, kwargs, st, node)
